@@ -174,7 +174,11 @@ func (r *runner) Step(t []string) string {
 		}
 		return o + " " + r.global(before)
 	case "settle":
-		for i := 0; i < 400; i++ {
+		bound := 400
+		if len(s.extra) > 0 {
+			bound = 2000
+		}
+		for i := 0; i < bound && (len(s.extra) == 0 || len(s.actors) < 80); i++ { // scripted behaviours may ping-pong / spawn for ever
 			if len(s.armed) > 0 {
 				if s.Fire() == "hang" {
 					return "hang"
@@ -196,6 +200,17 @@ func (r *runner) Step(t []string) string {
 		return s.Dump()
 	case "dump":
 		return s.Dump()
+	case "park":
+		// park <site,site,...> | park none
+		s.extra = map[string]bool{}
+		if len(t) == 2 && t[1] != "none" {
+			for _, x := range strings.Split(t[1], ",") {
+				s.extra[x] = true
+			}
+		}
+		return "ok"
+	case "stuck":
+		return s.Stuck()
 	case "log":
 		a, ok := num(1)
 		if !ok {
@@ -258,10 +273,20 @@ func genAction(rng *proto.RNG, beh, nb int, calm bool) string {
 }
 
 func genDirectives(rng *proto.RNG, allowEscalate bool) string {
+	return genDirectivesW(rng, allowEscalate, false)
+}
+
+// focus: supervision-centred cases prefer the directives whose handling is the most intricate
+// (Resume is applied by the supervisor's goroutine, Escalate travels on)
+func genDirectivesW(rng *proto.RNG, allowEscalate, focus bool) string {
 	n := rng.Range(1, 3)
 	var d []string
 	for i := 0; i < n; i++ {
-		switch rng.Pick(5, 2, 2, 2) {
+		wr, ws, wres, wesc := 5, 2, 2, 2
+		if focus {
+			wr, ws, wres, wesc = 2, 1, 4, 5
+		}
+		switch rng.Pick(wr, ws, wres, wesc) {
 		case 0:
 			d = append(d, "restart")
 		case 1:
@@ -280,15 +305,33 @@ func genDirectives(rng *proto.RNG, allowEscalate bool) string {
 }
 
 func gen(rng *proto.RNG, tier string, shard, nshards int, w *bufio.Writer) {
-	n := 12
+	genMode(false, rng, tier, shard, nshards, w)
+}
+
+// the fine suite: the same scenarios, but a quantum of `run` also ends at every suspend / resume /
+// push into a mailbox (`park`), so the schedules interleave the actors inside their turns
+func genFine(rng *proto.RNG, tier string, shard, nshards int, w *bufio.Writer) {
+	genMode(true, rng, tier, shard, nshards, w)
+}
+
+const fineSites = "mb.susp,mb.res,mb.spush,mb.upush"
+
+func genMode(fine bool, rng *proto.RNG, tier string, shard, nshards int, w *bufio.Writer) {
+	n := 24
 	if tier == "thorough" {
-		n = 150
+		n = 200
 	}
 	for c := 0; c < n; c++ {
 		var lines []string
 		add := func(l string) { lines = append(lines, l) }
 		nb := rng.Range(2, 5)
 		calm := rng.Intn(4) == 0
+		// focus: a supervision chain 2 -> 3 -> ... -> 6 whose deepest actors fail on user message 1,
+		// the ancestors deciding mostly Resume / Escalate (several consecutive Escalate decisions)
+		focus := c%3 == 1
+		if focus {
+			nb, calm = 5, false
+		}
 		behs := map[int]*behDef{}
 		r := &runner{behs: behs}
 		for b := 2; b < 2+nb; b++ {
@@ -296,6 +339,16 @@ func gen(rng *proto.RNG, tier string, shard, nshards int, w *bufio.Writer) {
 			// rules
 			nr := rng.Range(1, 5)
 			used := map[string]bool{}
+			if focus {
+				if b+1 < 2+nb {
+					used["launch"] = true
+					add(fmt.Sprintf("beh %d rule launch spawn %d", b, b+1))
+				}
+				if b >= 4 && rng.Intn(3) != 0 {
+					used["user:1"] = true
+					add(fmt.Sprintf("beh %d rule user:1 panic", b))
+				}
+			}
 			for k := 0; k < nr; k++ {
 				p := pats[rng.Intn(len(pats))]
 				if used[p] {
@@ -313,13 +366,16 @@ func gen(rng *proto.RNG, tier string, shard, nshards int, w *bufio.Writer) {
 				// an `escalate` in the victim's OWN strategy travels with the record up to the root,
 				// where Escalate panics inside the recover handler (process-fatal, known finding):
 				// generated only in supervisors' strategies
-				add(fmt.Sprintf("beh %d strategy %d %s", b, rng.Range(-1, 3), genDirectives(rng, false)))
+				add(fmt.Sprintf("beh %d strategy %d %s", b, rng.Range(-1, 3), genDirectivesW(rng, false, focus)))
 			}
-			if top || rng.Intn(4) == 0 {
-				add(fmt.Sprintf("beh %d actorstrategy %d %s", b, rng.Range(-1, 3), genDirectives(rng, !top)))
+			if top || rng.Intn(4) == 0 || (focus && b+1 < 2+nb && rng.Intn(4) != 0) {
+				add(fmt.Sprintf("beh %d actorstrategy %d %s", b, rng.Range(-1, 3), genDirectivesW(rng, !top, focus)))
 			}
 		}
 		add("start")
+		if fine {
+			add("park " + fineSites)
+		}
 		for _, l := range lines {
 			r.Step(strings.Fields(l))
 		}
@@ -348,6 +404,11 @@ func gen(rng *proto.RNG, tier string, shard, nshards int, w *bufio.Writer) {
 			na := len(r.s.actors)
 			switch rng.Pick(10, 30, 3, 1, 1, 1) {
 			case 0:
+				if focus && na > 2 && rng.Intn(3) != 0 {
+					// the deepest actors of the chain, mostly the failing message
+					do(fmt.Sprintf("tell %d %d", rng.Range(max(2, na-3), na-1), rng.Pick(3, 1)+1))
+					continue
+				}
 				do(fmt.Sprintf("tell %d %d", rng.Range(0, na+1), rng.Range(1, 3)))
 			case 1:
 				l := r.s.Runnable()
@@ -385,8 +446,11 @@ func gen(rng *proto.RNG, tier string, shard, nshards int, w *bufio.Writer) {
 		}
 		add("deadlog")
 		add("events")
+		if fine {
+			add("stuck")
+		}
 		add("dump")
-		hazard := r.s.hazard
+		hazard := r.s.hazard && !fine // the fine suite is judged, not compared: any order is a legal one
 		r.Reset()
 		if hazard {
 			continue // see Sys.hazard: outcome depends on Go's map iteration order
@@ -401,4 +465,5 @@ func gen(rng *proto.RNG, tier string, shard, nshards int, w *bufio.Writer) {
 // Register adds the suite.
 func Register() {
 	proto.Register(&proto.Suite{Name: "actorsys", Gen: gen, New: func() proto.Runner { r := &runner{}; r.Reset(); return r }})
+	proto.Register(&proto.Suite{Name: "actorsys-fine", Gen: genFine, New: func() proto.Runner { r := &runner{}; r.Reset(); return r }})
 }
